@@ -92,8 +92,9 @@ pub open spec fn data_ok_w<A: Alphabet, C: PositiveLength>(d: SamplerData<A, C>,
             && d.sequences.v@[z].wrap >= width             // checked by Sampler::_new (it panics otherwise)
             && d.sequences.v@[z].length < usize::MAX       // A-MEM: one byte per symbol, allocations are < isize::MAX
     &&& forall|z: int, k: int| 0 <= z < n && 0 <= k < A::K::USIZE ==> (#[trigger] d.counts@[z]@[k]) == cnt(lins[z], lins[z].len() as int, k)
-    // A-MEM: the data set fits in memory, so per-symbol totals fit usize
+    // A-MEM: the data set fits in memory, so per-symbol totals fit usize - also when added up (they count distinct positions)
     &&& forall|k: int| 0 <= k < A::K::USIZE ==> #[trigger] tcnt(lins, n, k) <= usize::MAX
+    &&& usum(Seq::new(A::K::USIZE as nat, |k: int| tcnt(lins, n, k) as usize), A::K::USIZE as int) <= usize::MAX
 }
 
 impl BitVec {
